@@ -16,9 +16,9 @@ NOT_DECIDED = "set semantics over all insertion sequences (membership/iteration 
 TRUSTED = ["clang 14 parser/CFG builder", "echse-facts extractor", "python rule engines in /verif/sa"]
 LEVEL_TEXT = ("Static verdict on necessary structural clauses of C19: parser guards inside container domains, nominal typing of the container "
               "family, iterators signal an element with a non-zero cursor on all paths (so 0 and single values are seen), negatives reachable "
-              "from a fresh cursor. It decides those clauses, not set semantics over all insertion sequences.")
+              "from a fresh cursor. It decides those clauses, not set semantics over all insertion sequences. Also: cursor coverage (no cursor value below the end bound ends a bitset iteration without examining the member words), no state shared between containers, signed mask words not compared relationally in bitset mode.")
 LEVEL_NOTE = "Trusted: clang 14 front end/CFG, extractor, rule engines."
-TECHNIQUE = "static analysis: interval facts from guards vs. derived container domains, nominal typedef typing, must-facts on iterator cursors, path-sensitive reachability"
+TECHNIQUE = "static analysis: interval facts from guards vs. derived container domains, nominal typedef typing, must-facts on iterator cursors, path-sensitive reachability; value-fixed walks over the cursor domain, carried-state analysis"
 
 
 def run(prog, rep, tier, snap):
